@@ -464,6 +464,9 @@ def gen_history(rng, nops, with_queries=False):
                 tr = G.gen_tr(rng, d, nd, invertible=rng.random() < 0.5)
                 op = {"k": "insfr", "in": {"name": names[i], "obj": None if rng.random() < 0.5 else _oid(names[i])}, "tr": tr, "out": {"name": new, "obj": _oid(new)},
                       "naxes": nd}
+            if op["tr"][0] == "identity":
+                # a bare Identity may become the first transform of the pipeline: same wrapping as above (D19)
+                op["tr"] = ["comp", op["tr"], ["identity", op["tr"][1]]]
             if invalid:
                 why = rng.choice(["both_known", "both_new", "new_is_str", "bad_tr"])
                 op["why"] = why
